@@ -520,4 +520,7 @@ def n5(ctx, rep, T):
                     rep.fail('N5', key, f"{f['name']}: type-level id not derived from the item's own ident/attrs: {vt.show(idv)[:120]}", site)
                 else:
                     rep.ok('N5', key, 'get_ident(item.ident, item.attrs, None)', site)
-    rep.floor('N5', 'type-level id construction sites', n, 7)
+    # counted in (parser function, IR type) pairs — struct, struct-as-alias, alias, enum, const; how many literals a parser writes
+    # for one of them (one per arm, or one after a shape helper) is not the rule's business
+    kinds = {o['key'] for o in rep.obligations if o.get('rule') == 'N5'}
+    rep.floor('N5', 'type-level id construction sites (parser function × IR type)', len(kinds), 5)
